@@ -19,60 +19,6 @@ const (
 	c01R8 = "C01.R8-manifest-wiring"
 )
 
-// aeadOp finds the invoke of cipher.AEAD Seal/Open in fn.
-func c01AeadOp(fn *ssa.Function, name string) *ssa.Call {
-	var out *ssa.Call
-	allInstrs(fn, func(in ssa.Instruction) {
-		if c, ok := in.(*ssa.Call); ok && callIs(c, "crypto/cipher", "AEAD", name) {
-			out = c
-		}
-	})
-	return out
-}
-
-type c01Drive struct {
-	site ssa.CallInstruction
-	fn   *ssa.Function // the per-segment function
-	size ssa.Value
-}
-
-// drives: call sites of processSegments with their per-segment function.
-func (x *c01Ctx) drives() []c01Drive {
-	ps := x.p.Func(c01Rel, "processSegments")
-	var out []c01Drive
-	for _, ci := range c01CallsTo(x.fns, ps) {
-		args := ci.Common().Args
-		d := c01Drive{site: ci}
-		for _, a := range args {
-			if _, ok := a.Type().Underlying().(*types.Signature); ok {
-				d.fn = c01BoundMethod(x.p, a)
-			}
-			if b, ok := a.Type().Underlying().(*types.Basic); ok && b.Info()&types.IsInteger != 0 {
-				d.size = a
-			}
-		}
-		out = append(out, d)
-	}
-	return out
-}
-
-// segmentFns: "seal" -> function that invokes AEAD.Seal, "open" -> AEAD.Open.
-func (x *c01Ctx) segmentFns() map[string]*ssa.Function {
-	out := map[string]*ssa.Function{}
-	for _, d := range x.drives() {
-		if d.fn == nil {
-			continue
-		}
-		if c01AeadOp(d.fn, "Seal") != nil {
-			out["seal"] = d.fn
-		}
-		if c01AeadOp(d.fn, "Open") != nil {
-			out["open"] = d.fn
-		}
-	}
-	return out
-}
-
 func (x *c01Ctx) constInt(name string) (int64, bool) {
 	c, ok := x.p.Pkg(c01Rel).Types.Scope().Lookup(name).(*types.Const)
 	if !ok {
@@ -106,86 +52,12 @@ func (x *c01Ctx) specConstants() {
 		r.Check(got == k.want, c01R3, "const "+k.name, posOf(k.name), fmt.Sprintf("= %d as in the README", got), fmt.Sprintf("%s is %d but the README's %s is %d: the ciphertext layout differs from the published format", k.name, got, k.what, k.want))
 	}
 
-	x.nonceLayout()
-	x.kdf()
-
-	// base64 flavour
-	for _, fn := range x.fns {
-		var bad []string
-		n := 0
-		allInstrs(fn, func(in ssa.Instruction) {
-			u, ok := in.(*ssa.UnOp)
-			if !ok || u.Op != token.MUL {
-				return
-			}
-			g, ok := u.X.(*ssa.Global)
-			if !ok || g.Pkg == nil || g.Pkg.Pkg.Path() != "encoding/base64" {
-				return
-			}
-			n++
-			if g.Name() != "StdEncoding" {
-				bad = append(bad, g.Name())
-			}
-		})
-		if n > 0 {
-			r.Check(len(bad) == 0, c01R3, FuncName(p, fn)+" base64 flavour", p.Pos(fn.Pos()), "uses base64.StdEncoding (RFC 4648 §4 with padding)",
-				fmt.Sprintf("uses base64.%s; the README prescribes standard base64 with padding for the MAC line: spec implementations cannot parse/produce the third header line", strings.Join(bad, ",")))
-		}
-	}
-	// buffer large enough for the biggest fill window (segment size + 1)
-	x.bufferSize()
-	x.freshKeySizes()
-	x.headerLayout()
-}
-
-// freshKeySizes: the random material handed to importFileKey by the generator
-// is a 32-byte file key and a nonce prefix of the spec's length.
-func (x *c01Ctx) freshKeySizes() {
-	r, p, s := x.r, x.p, x.spec
-	gen := p.FuncOpt(c01Rel, "newFileKey")
-	imp := p.FuncOpt(c01Rel, "importFileKey")
-	if gen == nil || imp == nil {
-		r.Undecide("C01.R3: newFileKey/importFileKey no longer resolve")
-		return
-	}
-	calls := c01CallsTo([]*ssa.Function{gen}, imp)
-	if len(calls) != 1 {
-		r.Undecide("C01.R3: newFileKey does not call importFileKey exactly once")
-		return
-	}
-	args := calls[0].Common().Args
-	width := func(v ssa.Value) (int64, bool) {
-		sl, ok := v.(*ssa.Slice)
-		if !ok || sl.High == nil {
-			return 0, false
-		}
-		hi, ok := c01ConstInt(sl.High)
-		if !ok {
-			return 0, false
-		}
-		var lo int64
-		if sl.Low != nil {
-			if lo, ok = c01ConstInt(sl.Low); !ok {
-				return 0, false
-			}
-		}
-		return hi - lo, true
-	}
-	kw, ok1 := width(args[0])
-	pw, ok2 := width(args[1])
-	if !ok1 || !ok2 {
-		r.Undecide("C01.R3: the key / nonce-prefix windows in newFileKey are not constant slices")
-		return
-	}
-	r.Check(kw == 32 && pw == s.PrefixLen, c01R3, "newFileKey key and nonce-prefix sizes", p.Pos(calls[0].Pos()), fmt.Sprintf("file key %d bytes, nonce prefix %d bytes", kw, pw),
-		fmt.Sprintf("a fresh file key has %d bytes and its nonce prefix %d bytes; the README says 32 and %d: Decrypt (Manifest.Validate, len != 32 test) rejects what Encrypt wrote, or the nonce differs from the published layout", kw, pw, s.PrefixLen))
 }
 
 // headerLayout: SignHeader returns message || base64(MAC) || '\n' (checked
 // for the make+copy+Encode form; other forms are not decided).
-func (x *c01Ctx) headerLayout() {
+func (x *c01Ctx) headerLayout(sign *ssa.Function) {
 	r, p := x.r, x.p
-	sign := p.Func(c01Rel, "fileKey.SignHeader")
 	fname := FuncName(p, sign)
 	var root *ssa.MakeSlice
 	multi := false
@@ -236,85 +108,23 @@ func (x *c01Ctx) headerLayout() {
 				if lc, ok := l.Base.(*ssa.Call); ok && builtinName(lc) == "len" && c01Root(lc.Call.Args[0]) == ssa.Value(root) && l.K == -1 {
 					hasNL = true
 				}
+				// index = (the length the buffer was made with) - 1
+				if ml := c01Linear(root.Len); ml.Base != nil && l.Base == ml.Base && l.K == ml.K-1 {
+					hasNL = true
+				}
+				if ml := c01Linear(root.Len); ml.Base == nil && l.Base == nil && l.K == ml.K-1 {
+					hasNL = true
+				}
 			}
 		}
 	})
-	r.Check(hasMsg && hasMAC && hasNL, c01R3, fname+" header layout", p.Pos(sign.Pos()), "message || base64(MAC) || LF",
+	r.Check(hasMsg && hasMAC && hasNL, c01R3, "Encrypt header layout", p.Pos(sign.Pos()), "message || base64(MAC) || LF",
 		fmt.Sprintf("the signed header is not message (%v) || base64 MAC (%v) || final line feed (%v): the README says each of the three header items is terminated by 0x0A and the payload starts right after the third", hasMsg, hasMAC, hasNL))
 }
 
-func (x *c01Ctx) bufferSize() {
-	r := x.r
-	var max int64
-	for _, d := range x.drives() {
-		if d.size == nil {
-			continue
-		}
-		if k, ok := c01ConstInt(d.size); ok && k > max {
-			max = k
-		}
-	}
-	if max == 0 {
-		return
-	}
-	// the pool's New closure: constant-size byte array / make
-	var got int64 = -1
-	for _, fn := range x.fns {
-		if fn.Parent() == nil || fn.Parent().Name() != "init" {
-			continue
-		}
-		allInstrs(fn, func(in ssa.Instruction) {
-			switch a := in.(type) {
-			case *ssa.Alloc:
-				if arr, ok := deref(a.Type()).Underlying().(*types.Array); ok && a.Heap {
-					if b, ok := arr.Elem().Underlying().(*types.Basic); ok && b.Kind() == types.Byte {
-						got = arr.Len()
-					}
-				}
-			case *ssa.MakeSlice:
-				if k, ok := c01ConstInt(a.Len); ok {
-					got = k
-				}
-			}
-		})
-	}
-	if got < 0 {
-		r.Note("C01.R3: could not find the constant size of BufPool's buffers (not armed)")
-		return
-	}
-	r.Check(got >= max+1, c01R3, "BufPool buffer size", "-", fmt.Sprintf("%d >= largest segment size %d + 1 look-ahead byte", got, max),
-		fmt.Sprintf("pooled buffers have %d bytes but the fill loop slices them up to %d: the first Read of a full-size segment panics (slice bounds out of range)", got, max+1))
-}
-
-func (x *c01Ctx) nonceFn() *ssa.Function {
-	fns := x.segmentFns()
-	var out *ssa.Function
-	for _, k := range []string{"seal", "open"} {
-		fn := fns[k]
-		if fn == nil {
-			continue
-		}
-		op := c01AeadOp(fn, map[string]string{"seal": "Seal", "open": "Open"}[k])
-		if op == nil || len(op.Call.Args) < 2 {
-			continue
-		}
-		if c, ok := op.Call.Args[1].(*ssa.Call); ok {
-			if f := staticCallee(c); f != nil && out == nil {
-				out = f
-			}
-		}
-	}
-	return out
-}
-
-func (x *c01Ctx) nonceLayout() {
+func (x *c01Ctx) nonceLayout(nf *ssa.Function, root ssa.Value, dir string) {
 	r, p, s := x.r, x.p, x.spec
-	nf := x.nonceFn()
-	if nf == nil {
-		r.Undecide("C01.R3: the nonce passed to AEAD.Seal is not the result of a package function call")
-		return
-	}
-	fname := FuncName(p, nf)
+	fname := dir
 	pos := p.Pos(nf.Pos())
 	var num, last *ssa.Parameter
 	for _, pa := range nf.Params {
@@ -331,22 +141,8 @@ func (x *c01Ctx) nonceLayout() {
 		r.Undecide("C01.R3: %s no longer takes (uint32 counter, bool last)", fname)
 		return
 	}
-	// root allocation returned
-	var root ssa.Value
+	// the nonce buffer (found by role: what is handed to the AEAD as nonce)
 	var size int64 = -1
-	for _, b := range nf.Blocks {
-		if len(b.Instrs) == 0 {
-			continue
-		}
-		if ret, ok := b.Instrs[len(b.Instrs)-1].(*ssa.Return); ok && len(ret.Results) == 1 {
-			rt := c01Root(ret.Results[0])
-			if root != nil && root != rt {
-				r.Undecide("C01.R3: %s returns different buffers on different paths", fname)
-				return
-			}
-			root = rt
-		}
-	}
 	switch a := root.(type) {
 	case *ssa.Alloc:
 		if arr, ok := deref(a.Type()).Underlying().(*types.Array); ok {
@@ -392,7 +188,6 @@ func (x *c01Ctx) nonceLayout() {
 	}
 	// prefix
 	prefixOK, prefixSeen := false, false
-	var prefixField FieldID
 	// counter
 	ctrOK, ctrSeen, ctrWhy := false, false, ""
 	allInstrs(nf, func(in ssa.Instruction) {
@@ -403,9 +198,9 @@ func (x *c01Ctx) nonceLayout() {
 		if builtinName(c) == "copy" && len(c.Call.Args) == 2 {
 			if lo, hi, ok := win(c.Call.Args[0]); ok {
 				prefixSeen = true
-				if id, isF := c01RecvField(nf, c.Call.Args[1]); isF && lo == 0 && hi == s.PrefixLen {
+				// where the prefix bytes come from is compared with the manifest's NoncePrefix by R8
+				if lo == 0 && hi == s.PrefixLen {
 					prefixOK = true
-					prefixField = id
 				}
 			}
 		}
@@ -436,9 +231,9 @@ func (x *c01Ctx) nonceLayout() {
 	})
 	switch {
 	case prefixOK:
-		r.OK(c01R3, fname+" nonce prefix", pos, fmt.Sprintf("bytes [0:%d) = receiver.%s", s.PrefixLen, prefixField.Field))
+		r.OK(c01R3, fname+" nonce prefix", pos, fmt.Sprintf("bytes [0:%d) are copied in", s.PrefixLen))
 	case prefixSeen:
-		r.Violation(c01R3, fname+" nonce prefix", pos, fmt.Sprintf("the copy into the nonce does not put the receiver's nonce-prefix field into bytes [0:%d) (spec: nonce_prefix (%d bytes) first)", s.PrefixLen, s.PrefixLen))
+		r.Violation(c01R3, fname+" nonce prefix", pos, fmt.Sprintf("the copy into the nonce does not fill bytes [0:%d) (spec: nonce_prefix (%d bytes) first)", s.PrefixLen, s.PrefixLen))
 	default:
 		r.Undecide("C01.R3: no copy(nonce[...], prefix) recognised in %s", fname)
 	}
@@ -514,767 +309,17 @@ func (x *c01Ctx) nonceLayout() {
 	}
 }
 
-// describe a []byte argument: "nil", "str:<s>", "field:<name>", or "?".
-func (x *c01Ctx) descBytes(fn *ssa.Function, v ssa.Value) string {
-	if isNilConst(v) {
-		return "nil"
-	}
-	if s, ok := c01ConstString(v); ok {
-		return "str:" + s
-	}
-	if id, _, ok := c01AnyField(v); ok {
-		return "field:" + id.Field
-	}
-	return "?"
-}
-
-// kdf: (salt, info) pairs reaching hkdf.New, where the derived keys go, HMAC.
-func (x *c01Ctx) kdf() {
-	r, p, s := x.r, x.p, x.spec
-	type deriv struct{ info, salt, dest string }
-	var derivs []deriv
-	var hk *ssa.Call
-	var hkFn *ssa.Function
-	for _, fn := range x.fns {
-		allInstrs(fn, func(in ssa.Instruction) {
-			if c, ok := in.(*ssa.Call); ok {
-				if obj := calleeObj(c); obj != nil && obj.Pkg() != nil && strings.HasSuffix(obj.Pkg().Path(), "x/crypto/hkdf") {
-					hk, hkFn = c, fn
-				}
-			}
-		})
-	}
-	if hk == nil || !callIs(hk, "golang.org/x/crypto/hkdf", "", "New") || len(hk.Call.Args) != 4 {
-		r.Undecide("C01.R3: no call hkdf.New(hash, secret, salt, info) found in %s", c01Rel)
-		return
-	}
-	hname := FuncName(p, hkFn)
-	hpos := p.Pos(hk.Pos())
-	r.Check(c01FuncValueIs(hk.Call.Args[0], "crypto/sha256", "New"), c01R3, hname+" HKDF hash", hpos, "HKDF over sha256.New", "HKDF is not instantiated with crypto/sha256.New (spec: HKDF-SHA-256): all derived keys differ from a spec implementation's")
-	secretID, okSecret := c01RecvField(hkFn, hk.Call.Args[1])
-	// the file key field = what GetFileKey returns (the key that is wrapped)
-	var fileKeyField FieldID
-	if g := p.FuncOpt(c01Rel, "fileKey.GetFileKey"); g != nil {
-		for _, b := range g.Blocks {
-			if len(b.Instrs) > 0 {
-				if ret, ok := b.Instrs[len(b.Instrs)-1].(*ssa.Return); ok && len(ret.Results) == 1 {
-					if id, ok := c01RecvField(g, ret.Results[0]); ok {
-						fileKeyField = id
-					}
-				}
-			}
-		}
-	}
-	if fileKeyField.Field == "" {
-		r.Undecide("C01.R3: cannot resolve which field fileKey.GetFileKey returns")
-	} else {
-		r.Check(okSecret && secretID == fileKeyField, c01R3, hname+" HKDF secret", hpos, "ikm = the file key that gets wrapped", "HKDF's input key material is not the file key that Encrypt wraps into the manifest (spec: ikm = file key)")
-	}
-	// salt/info: parameters resolved at the call sites
-	paramIdx := func(v ssa.Value) int {
-		for i, pa := range hkFn.Params {
-			if pa == v {
-				return i
-			}
-		}
-		return -1
-	}
-	si, ii := paramIdx(hk.Call.Args[2]), paramIdx(hk.Call.Args[3])
-	if si < 0 || ii < 0 {
-		// direct form
-		derivs = append(derivs, deriv{x.descBytes(hkFn, hk.Call.Args[3]), x.descBytes(hkFn, hk.Call.Args[2]), "?"})
-	} else {
-		for _, ci := range c01CallsTo(x.fns, hkFn) {
-			call, ok := ci.(*ssa.Call)
-			if !ok {
-				continue
-			}
-			caller := call.Parent()
-			d := deriv{info: x.descBytes(caller, call.Call.Args[ii]), salt: x.descBytes(caller, call.Call.Args[si]), dest: "?"}
-			if res := callResult(call, 0); res != nil {
-				for _, u := range refs(res) {
-					if st, ok := u.(*ssa.Store); ok {
-						if fa, ok := st.Addr.(*ssa.FieldAddr); ok {
-							d.dest = fieldIDOfAddr(fa).Field
-						}
-					}
-				}
-			}
-			derivs = append(derivs, d)
-		}
-	}
-	// who consumes which field
-	macKeyField, aeadKeyField := "", ""
-	var hm *ssa.Call
-	for _, fn := range x.fns {
-		allInstrs(fn, func(in ssa.Instruction) {
-			c, ok := in.(*ssa.Call)
-			if !ok {
-				return
-			}
-			if callIs(c, "crypto/hmac", "", "New") && len(c.Call.Args) == 2 {
-				hm = c
-				if id, ok := c01RecvField(fn, c.Call.Args[1]); ok {
-					macKeyField = id.Field
-				}
-			}
-			if obj := calleeObj(c); obj != nil && obj.Pkg() != nil && len(c.Call.Args) == 1 {
-				if (obj.Pkg().Path() == "crypto/aes" && obj.Name() == "NewCipher") || strings.HasSuffix(obj.Pkg().Path(), "/chacha20poly1305") {
-					if id, ok := c01RecvField(fn, c.Call.Args[0]); ok {
-						if aeadKeyField != "" && aeadKeyField != id.Field {
-							aeadKeyField = "<different fields>"
-						} else {
-							aeadKeyField = id.Field
-						}
-					} else {
-						aeadKeyField = "<not a receiver field>"
-					}
-				}
-			}
-		})
-	}
-	if hm == nil {
-		r.Undecide("C01.R3: no hmac.New call found in %s", c01Rel)
-	} else {
-		r.Check(c01FuncValueIs(hm.Call.Args[0], "crypto/sha256", "New"), c01R3, FuncName(p, hm.Parent())+" HMAC hash", p.Pos(hm.Pos()), "HMAC over sha256.New", "the header MAC is not HMAC-SHA-256 (spec: MAC = HMAC-SHA-256(...))")
-	}
-	// nonce prefix field (what nonceForSegment copies)
-	prefixField := ""
-	if nf := x.nonceFn(); nf != nil {
-		allInstrs(nf, func(in ssa.Instruction) {
-			if c, ok := in.(*ssa.Call); ok && builtinName(c) == "copy" {
-				if id, ok := c01RecvField(nf, c.Call.Args[1]); ok {
-					prefixField = id.Field
-				}
-			}
-		})
-	}
-	find := func(dest string) *deriv {
-		for i := range derivs {
-			if derivs[i].dest == dest {
-				return &derivs[i]
-			}
-		}
-		return nil
-	}
-	specSalt := func(sp string) string {
-		switch strings.ToLower(sp) {
-		case "empty":
-			return "nil"
-		case "nonce prefix":
-			return "field:" + prefixField
-		}
-		return "<unknown spec salt " + sp + ">"
-	}
-	for _, k := range []struct{ specKey, field, use string }{{"mac-key", macKeyField, "HMAC key of the header"}, {"payload-key", aeadKeyField, "AEAD key of the segments"}} {
-		cons := "HKDF derivation of the " + k.specKey
-		sp, ok := s.HKDF[k.specKey]
-		if !ok {
-			r.Undecide("C01.R3: README has no HKDF line for %s", k.specKey)
-			continue
-		}
-		d := find(k.field)
-		if k.field == "" || d == nil {
-			if strings.HasPrefix(k.field, "<") || (k.field != "" && d == nil) {
-				r.Violation(c01R3, cons, hpos, fmt.Sprintf("the %s is taken from %q, which is not a key derived with HKDF (spec: %s = HKDF-SHA-256(ikm = file key, salt = %s, info = %q))", k.use, k.field, k.specKey, sp[0], sp[1]))
-			} else {
-				r.Undecide("C01.R3: cannot resolve which receiver field is the %s", k.use)
-			}
-			continue
-		}
-		if d.info == "?" || d.salt == "?" {
-			r.Undecide("C01.R3: cannot resolve the (salt, info) arguments deriving field %s", k.field)
-			continue
-		}
-		good := d.info == "str:"+sp[1] && (d.salt == specSalt(sp[0]) || (sp[0] == "empty" && d.salt == "str:"))
-		r.Check(good, c01R3, cons, hpos, fmt.Sprintf("field %s = HKDF(info=%q, salt=%s) as in the README", k.field, sp[1], sp[0]),
-			fmt.Sprintf("the %s (field %s) is derived with info=%s salt=%s; the README says info=%q salt=%s: Encrypt and Decrypt still agree with each other but not with the published format", k.use, k.field, d.info, d.salt, sp[1], sp[0]))
-	}
-}
-
 // ---------------------------------------------------------------- R4
-
-func (x *c01Ctx) siblings() {
-	r, p, s := x.r, x.p, x.spec
-	fns := x.segmentFns()
-	drives := x.drives()
-	if fns["seal"] == nil || fns["open"] == nil {
-		r.Undecide("C01.R4: cannot resolve the sealing and opening per-segment functions from the processSegments call sites (found %d sites)", len(drives))
-		return
-	}
-	// sizes
-	for _, d := range drives {
-		if d.fn == nil || d.size == nil {
-			r.Undecide("C01.R4: a processSegments call site has an unresolved function or size argument")
-			continue
-		}
-		k, ok := c01ConstInt(d.size)
-		if !ok {
-			r.Undecide("C01.R4: segment size at a processSegments call site is not a constant")
-			continue
-		}
-		caller := FuncName(p, d.site.Parent())
-		switch d.fn {
-		case fns["seal"]:
-			r.Check(k == s.SegmentSize, c01R4, "segment size driving "+d.fn.Name(), p.Pos(d.site.Pos()), fmt.Sprintf("%s reads plaintext in %d-byte segments", caller, k),
-				fmt.Sprintf("%s chunks the plaintext into %d-byte segments, the README says %d", caller, k, s.SegmentSize))
-		case fns["open"]:
-			r.Check(k == s.SegmentSize+s.TagSize, c01R4, "segment size driving "+d.fn.Name(), p.Pos(d.site.Pos()), fmt.Sprintf("%s reads ciphertext in %d-byte segments (= %d + tag %d)", caller, k, s.SegmentSize, s.TagSize),
-				fmt.Sprintf("%s chunks the ciphertext into %d-byte segments; Encrypt writes %d+%d bytes per full segment: every multi-segment message is mis-framed", caller, k, s.SegmentSize, s.TagSize))
-		}
-	}
-	// nonce + AAD + data
-	var nonceFns []*ssa.Function
-	for _, k := range []string{"seal", "open"} {
-		fn := fns[k]
-		opName := map[string]string{"seal": "Seal", "open": "Open"}[k]
-		op := c01AeadOp(fn, opName)
-		fname := FuncName(p, fn)
-		pos := p.Pos(op.Pos())
-		var num, last, data *ssa.Parameter
-		for _, pa := range fn.Params {
-			switch t := pa.Type().Underlying().(type) {
-			case *types.Basic:
-				if t.Kind() == types.Uint32 {
-					num = pa
-				}
-				if t.Kind() == types.Bool {
-					last = pa
-				}
-			case *types.Slice:
-				data = pa
-			}
-		}
-		args := op.Call.Args // dst, nonce, text, aad
-		nc, _ := args[1].(*ssa.Call)
-		var nfn *ssa.Function
-		if nc != nil {
-			nfn = staticCallee(nc)
-		}
-		if nfn == nil {
-			r.Undecide("C01.R4: the nonce given to AEAD.%s in %s is not the result of a static call", opName, fname)
-		} else {
-			nonceFns = append(nonceFns, nfn)
-			a := nc.Call.Args
-			if nfn.Signature.Recv() != nil {
-				a = a[1:]
-			}
-			good := len(a) == 2 && a[0] == num && a[1] == last
-			r.Check(good, c01R4, fname+" nonce arguments", pos, "nonce = "+nfn.Name()+"(num, last) with the function's own parameters",
-				"the nonce for AEAD."+opName+" is not computed from this call's own (num, last) in that order: the two directions (or a spec implementation) derive different nonces for the same segment")
-		}
-		r.Check(isNilConst(args[3]), c01R4, fname+" additional data", pos, "no AAD", "AEAD."+opName+" is given additional authenticated data; the spec has none, so spec implementations cannot open/produce these segments")
-		r.Check(data != nil && c01Root(args[2]) == ssa.Value(data), c01R4, fname+" sealed data", pos, "operates on the data parameter", "AEAD."+opName+" does not operate on the segment data handed in")
-	}
-	if len(nonceFns) == 2 {
-		r.Check(nonceFns[0] == nonceFns[1], c01R4, "seal/open share the nonce function", p.Pos(nonceFns[0].Pos()), "both directions call "+nonceFns[0].Name(), "sealing and opening compute their nonces with different functions")
-	}
-
-	// MACed message
-	sign := p.Func(c01Rel, "fileKey.SignHeader")
-	verify := p.Func(c01Rel, "fileKey.VerifyHeaderSignature")
-	var macFn *ssa.Function
-	for _, fn := range x.fns {
-		allInstrs(fn, func(in ssa.Instruction) {
-			if c, ok := in.(*ssa.Call); ok && callIs(c, "crypto/hmac", "", "New") {
-				macFn = fn
-			}
-		})
-	}
-	if macFn == nil {
-		return
-	}
-	var msgFns []*ssa.Function
-	for _, fn := range []*ssa.Function{sign, verify} {
-		fname := FuncName(p, fn)
-		var manifest *ssa.Parameter
-		for _, pa := range fn.Params[1:] {
-			if _, ok := pa.Type().Underlying().(*types.Slice); ok {
-				manifest = pa
-				break
-			}
-		}
-		calls := c01CallsTo([]*ssa.Function{fn}, macFn)
-		if len(calls) == 0 || manifest == nil {
-			r.Undecide("C01.R4: %s does not call %s directly", fname, FuncName(p, macFn))
-			continue
-		}
-		call := calls[0].(*ssa.Call)
-		msg := call.Call.Args[len(call.Call.Args)-1]
-		mc, _ := msg.(*ssa.Call)
-		var mfn *ssa.Function
-		if mc != nil {
-			mfn = staticCallee(mc)
-		}
-		if mfn == nil {
-			r.Undecide("C01.R4: the message MACed in %s is not the result of a static call", fname)
-			continue
-		}
-		msgFns = append(msgFns, mfn)
-		margs := mc.Call.Args
-		r.Check(len(margs) > 0 && margs[len(margs)-1] == ssa.Value(manifest), c01R4, fname+" MACed message", p.Pos(call.Pos()), "MAC over "+mfn.Name()+"(manifest)",
-			"the MAC in "+fn.Name()+" is not computed over "+mfn.Name()+"(<the manifest parameter>)")
-	}
-	if len(msgFns) == 2 {
-		r.Check(msgFns[0] == msgFns[1], c01R4, "sign/verify share the header message", p.Pos(msgFns[0].Pos()), "both MAC "+msgFns[0].Name()+"(manifest)", "SignHeader and VerifyHeaderSignature build the MACed message with different functions")
-		// message content: scheme line and the manifest
-		mf := msgFns[0]
-		hasScheme, hasManifest, hasNL := false, false, false
-		for _, b := range mf.Blocks {
-			if len(b.Instrs) == 0 {
-				continue
-			}
-			ret, ok := b.Instrs[len(b.Instrs)-1].(*ssa.Return)
-			if !ok || len(ret.Results) != 1 {
-				continue
-			}
-			cone := c01Cone(ret.Results[0])
-			// slice literals are filled by stores into index cells of allocs in the cone
-			for v := range cone {
-				if a, ok := v.(*ssa.Alloc); ok {
-					for _, u := range refs(a) {
-						if ia, ok := u.(*ssa.IndexAddr); ok {
-							for _, w := range refs(ia) {
-								if st, ok := w.(*ssa.Store); ok {
-									for y := range c01Cone(st.Val) {
-										cone[y] = true
-										if a2, ok := y.(*ssa.Alloc); ok {
-											for _, u2 := range refs(a2) {
-												if ia2, ok := u2.(*ssa.IndexAddr); ok {
-													for _, w2 := range refs(ia2) {
-														if st2, ok := w2.(*ssa.Store); ok {
-															cone[st2.Val] = true
-														}
-													}
-												}
-											}
-										}
-									}
-								}
-							}
-						}
-					}
-				}
-			}
-			for v := range cone {
-				if sv, ok := c01ConstString(v); ok && sv == s.Scheme {
-					hasScheme = true
-				}
-				if pa, ok := v.(*ssa.Parameter); ok && len(mf.Params) > 0 && pa == mf.Params[len(mf.Params)-1] {
-					hasManifest = true
-				}
-				if k, ok := c01ConstInt(v); ok && k == 10 {
-					hasNL = true
-				}
-				if sv, ok := c01ConstString(v); ok && strings.Contains(sv, "\n") {
-					hasNL = true
-				}
-			}
-		}
-		r.Check(hasScheme && hasManifest && hasNL, c01R4, FuncName(p, mf)+" content", p.Pos(mf.Pos()), "built from the scheme line, the manifest and newlines",
-			fmt.Sprintf("the MACed message is not built from the scheme line (%v), the manifest (%v) and line feeds (%v); the README MACs the first two header lines including the trailing newline", hasScheme, hasManifest, hasNL))
-	}
-
-	x.headerSizeLimit()
-
-	// Decrypt verifies the manifest bytes exactly as read
-	dec := p.Func(c01Rel, "Decrypt")
-	rh := p.Func(c01Rel, "readHeader")
-	vcalls := c01CallsTo([]*ssa.Function{dec}, verify)
-	rcalls := c01CallsTo([]*ssa.Function{dec}, rh)
-	if len(vcalls) == 0 || len(rcalls) == 0 {
-		r.Undecide("C01.R4: Decrypt no longer calls readHeader and VerifyHeaderSignature directly")
-		return
-	}
-	vc := vcalls[0].(*ssa.Call)
-	rc := rcalls[0].(*ssa.Call)
-	va := vc.Call.Args
-	good := len(va) == 3 && va[1] == callResult(rc, 0) && va[2] == callResult(rc, 1)
-	r.Check(good, c01R4, "Decrypt verifies the manifest as read", p.Pos(vc.Pos()), "VerifyHeaderSignature(manifest, mac) gets readHeader's raw results",
-		"the MAC is not verified over the exact manifest bytes (and MAC line) returned by readHeader; the README requires the MAC to be checked on the manifest string as included in the header, never on a re-encoding — documents from other JSON encoders would be rejected")
-}
 
 // ---------------------------------------------------------------- R7
 
-func (x *c01Ctx) headerPushback() {
-	r, p := x.r, x.p
-	rh := p.Func(c01Rel, "readHeader")
-	fname := FuncName(p, rh)
-	var inParam *ssa.Parameter
-	for _, pa := range rh.Params {
-		if pt, ok := pa.Type().Underlying().(*types.Pointer); ok {
-			if _, ok := pt.Elem().Underlying().(*types.Interface); ok {
-				inParam = pa
-			}
-		}
-	}
-	if inParam == nil {
-		r.Undecide("C01.R7: %s no longer takes the stream by pointer (*io.Reader)", fname)
-		return
-	}
-	// is a Read offered more than one byte?
-	var site *c01ReadSite
-	for _, sx := range x.collectReads() {
-		if sx.fn == rh {
-			sx := sx
-			site = &sx
-		}
-	}
-	if site == nil {
-		r.Undecide("C01.R7: no Read found in %s", fname)
-		return
-	}
-	cons := fname + " pushes back the surplus"
-	var store *ssa.Store
-	allInstrs(rh, func(in ssa.Instruction) {
-		if st, ok := in.(*ssa.Store); ok && st.Addr == ssa.Value(inParam) {
-			store = st
-		}
-	})
-	if store == nil {
-		r.Violation(c01R7, cons, p.Pos(site.call.Pos()), "the header is read in chunks that may extend past the third newline, but nothing is stored back into *in: payload bytes that arrived together with the header are lost (depends on how the source chunks its reads)")
-	} else {
-		mr, _ := store.Val.(*ssa.Call)
-		if mr == nil || !callIs(mr, "io", "", "MultiReader") {
-			r.Undecide("C01.R7: %s replaces *in with something other than io.MultiReader(...)", fname)
-		} else {
-			// varargs array: element 0 = reader over a copy of the buffer tail, element 1 = old *in
-			var elems [2]ssa.Value
-			n := 0
-			if sl, ok := mr.Call.Args[0].(*ssa.Slice); ok {
-				if arr, ok := sl.X.(*ssa.Alloc); ok {
-					for _, u := range refs(arr) {
-						if ia, ok := u.(*ssa.IndexAddr); ok {
-							if k, ok := c01ConstInt(ia.Index); ok && k >= 0 && k < 2 {
-								for _, w := range refs(ia) {
-									if st, ok := w.(*ssa.Store); ok {
-										elems[k] = st.Val
-										n++
-									}
-								}
-							} else {
-								n = 99
-							}
-						}
-					}
-				}
-			}
-			if n != 2 {
-				r.Undecide("C01.R7: io.MultiReader in %s does not have exactly two resolvable readers", fname)
-			} else {
-				isOld := func(v ssa.Value) bool {
-					u, ok := v.(*ssa.UnOp)
-					return ok && u.Op == token.MUL && u.X == ssa.Value(inParam)
-				}
-				var surplus ssa.Value
-				for v := range c01Cone(elems[0]) {
-					if c, ok := v.(*ssa.Call); ok && (callIs(c, "bytes", "", "NewReader") || callIs(c, "bytes", "", "NewBuffer")) {
-						surplus = c.Call.Args[0]
-					}
-				}
-				copied := false
-				aliasPool := false
-				var lo, hi ssa.Value
-				bufCell := c01BufCell(site.call.Call.Args[0])
-				pooled := c01CellFromPool(bufCell)
-				window := func(v ssa.Value) bool { // v is a window of the header buffer
-					sl, ok := v.(*ssa.Slice)
-					if !ok || c01BufCell(sl) != bufCell {
-						return false
-					}
-					lo, hi = sl.Low, sl.High
-					return true
-				}
-				if surplus != nil {
-					switch {
-					case window(surplus):
-						// the reader is built over the header buffer itself
-						if pooled {
-							aliasPool = true
-						} else {
-							copied = true // a private buffer may be aliased
-						}
-					default:
-						// fresh memory filled from the window: copy(dst, win) / append(x, win...) / bytes.Clone(win) / slices.Clone(win)
-						allInstrs(rh, func(in ssa.Instruction) {
-							if c, ok := in.(*ssa.Call); ok && builtinName(c) == "copy" && c.Call.Args[0] == surplus && window(c.Call.Args[1]) {
-								copied = true
-							}
-						})
-						if c, ok := surplus.(*ssa.Call); ok && !copied {
-							switch {
-							case builtinName(c) == "append" && len(c.Call.Args) == 2 && window(c.Call.Args[1]):
-								// appending to a window of the pooled buffer would still alias it
-								if c01BufCell(c.Call.Args[0]) != bufCell {
-									copied = true
-								} else if pooled {
-									aliasPool = true
-								}
-							case (callIs(c, "bytes", "", "Clone") || callIs(c, "slices", "", "Clone")) && len(c.Call.Args) == 1 && window(c.Call.Args[0]):
-								copied = true
-							}
-						}
-					}
-				}
-				acc := c01AccCore(site.nn)
-				switch {
-				case isOld(elems[0]) || !isOld(elems[1]):
-					r.Violation(c01R7, cons, p.Pos(store.Pos()), "the surplus bytes are not placed in front of the remaining stream (io.MultiReader(surplus, *in)): payload bytes are reordered or dropped")
-				case aliasPool:
-					r.Violation(c01R7, cons, p.Pos(store.Pos()), "the bytes read past the header are pushed back as a reader over the pooled buffer itself, which goes back to BufPool when "+rh.Name()+" returns — before processSegments consumes them: another Encrypt/Decrypt that takes that buffer in between (the window contains the UnwrapKeyFn call) overwrites the beginning of the payload and a valid document fails to decrypt; the pushed-back reader must own a fresh copy (make+copy, append to a new slice, bytes.Clone)")
-				case surplus == nil || !copied:
-					r.Undecide("C01.R7: cannot see the surplus reader being filled from the header buffer in %s", fname)
-				case hi == nil || !acc[hi]:
-					r.Violation(c01R7, cons, p.Pos(store.Pos()), "the surplus pushed back does not end at the number of bytes read so far: bytes already read from the source are lost or garbage is injected")
-				case lo == nil:
-					r.Violation(c01R7, cons, p.Pos(store.Pos()), "the surplus pushed back starts at the beginning of the buffer: the header itself is fed to the segment reader")
-				default:
-					// lo must be the position after the last newline: a phi/BinOp derived from the scan index + 1, never the accumulated count
-					r.Check(lo != hi, c01R7, cons, p.Pos(store.Pos()), "*in = MultiReader(copy of buf[afterHeader:n], *in)", "the surplus window starts at the accumulated read count, i.e. is always empty")
-				}
-			}
-		}
-	}
-
-	// Decrypt continues with the stream readHeader updated
-	dec := p.Func(c01Rel, "Decrypt")
-	ps := p.Func(c01Rel, "processSegments")
-	rcalls := c01CallsTo([]*ssa.Function{dec}, rh)
-	pcalls := c01CallsTo(x.fns, ps)
-	cons = "Decrypt continues with the pushed-back stream"
-	for _, pc := range pcalls {
-		if pc.Parent() != dec && (pc.Parent().Parent() != dec) {
-			continue
-		}
-		if len(rcalls) == 0 {
-			r.Undecide("C01.R7: Decrypt no longer calls readHeader directly")
-			return
-		}
-		rc := rcalls[0].(*ssa.Call)
-		cell := rc.Call.Args[0]
-		inArg := pc.Common().Args[0]
-		good := false
-		if u, ok := inArg.(*ssa.UnOp); ok && u.Op == token.MUL {
-			src := u.X
-			if fv, ok := src.(*ssa.FreeVar); ok {
-				if b := resolveFreeVar(fv); b != nil {
-					src = b
-				}
-				good = src == cell
-			} else {
-				good = src == cell && instrDominates(rc, u)
-			}
-		}
-		r.Check(good, c01R7, cons, p.Pos(pc.Pos()), "processSegments reads *(&in) re-loaded after readHeader", "processSegments is not given the stream variable that readHeader updated (re-loaded after the call): the payload bytes that were read together with the header are skipped")
-	}
-}
-
 // ---------------------------------------------------------------- R8
-
-func (x *c01Ctx) wiring() {
-	r, p := x.r, x.p
-	enc := p.Func(c01Rel, "Encrypt")
-	dec := p.Func(c01Rel, "Decrypt")
-	mfKey := x.pkg + ".Manifest"
-	// --- Encrypt: stores into the Manifest literal
-	stores := map[string]ssa.Value{}
-	allInstrs(enc, func(in ssa.Instruction) {
-		if st, ok := in.(*ssa.Store); ok {
-			if fa, ok := st.Addr.(*ssa.FieldAddr); ok {
-				if id := fieldIDOfAddr(fa); id.Type == mfKey {
-					stores[id.Field] = st.Val
-				}
-			}
-		}
-	})
-	var newFK, wrap, sign *ssa.Call
-	var wrapAlgArg ssa.Value
-	allInstrs(enc, func(in ssa.Instruction) {
-		c, ok := in.(*ssa.Call)
-		if !ok {
-			return
-		}
-		if f := staticCallee(c); f != nil {
-			switch f.Name() {
-			case "newFileKey":
-				newFK = c
-			case "SignHeader":
-				sign = c
-			}
-		}
-		if id, _, ok := c01AnyField(c.Call.Value); ok && id.Field == "WrapKeyFn" {
-			wrap = c
-			if len(c.Call.Args) >= 2 {
-				wrapAlgArg = c.Call.Args[1]
-			}
-		}
-	})
-	if newFK == nil || wrap == nil || sign == nil || len(stores) == 0 {
-		r.Undecide("C01.R8: Encrypt's newFileKey / WrapKeyFn / SignHeader / Manifest literal not all found")
-	} else {
-		pos := p.Pos(enc.Pos())
-		r.Check(stores["Cipher"] == newFK.Call.Args[0], c01R8, "Encrypt manifest cipher", pos, "Manifest.Cipher is the cipher the file key was created for", "Manifest.Cipher is not the value passed to newFileKey: the manifest announces a different cipher than the one sealing the segments")
-		r.Check(stores["WFK"] == callResult(wrap, 0), c01R8, "Encrypt manifest wrapped key", pos, "Manifest.WFK is WrapKeyFn's first result", "Manifest.WFK is not the wrapped key returned by WrapKeyFn")
-		// the key that is wrapped and the nonce prefix come from the fileKey produced by newFileKey
-		fkCone := func(v ssa.Value, method string) bool {
-			c, ok := v.(*ssa.Call)
-			if !ok {
-				return false
-			}
-			f := staticCallee(c)
-			return f != nil && f.Name() == method && c01DependsOn(c.Call.Args[0], newFK)
-		}
-		r.Check(fkCone(stores["NoncePrefix"], "GetNoncePrefix"), c01R8, "Encrypt manifest nonce prefix", pos, "Manifest.NoncePrefix = fk.GetNoncePrefix()", "Manifest.NoncePrefix is not the nonce prefix of the file key that seals the segments: Decrypt derives a different payload key and nonces")
-		r.Check(len(wrap.Call.Args) > 0 && fkCone(wrap.Call.Args[0], "GetFileKey"), c01R8, "Encrypt wraps the file key", p.Pos(wrap.Pos()), "WrapKeyFn(fk.GetFileKey(), …)", "the key handed to WrapKeyFn is not the file key that derives the header and payload keys")
-		// algorithm: the validated algorithm is both stored and given to WrapKeyFn
-		algOK := false
-		if wrapAlgArg != nil && stores["KeyWrappingAlgorithm"] != nil {
-			algOK = c01DependsOn(wrapAlgArg, stores["KeyWrappingAlgorithm"])
-		}
-		r.Check(algOK, c01R8, "Encrypt manifest key algorithm", pos, "the algorithm given to WrapKeyFn is the one stored in the manifest", "the algorithm name handed to WrapKeyFn and the one written to the manifest are different values: Decrypt asks UnwrapKeyFn for another algorithm")
-		// header = SignHeader(json.Marshal(manifest)) written before the segments
-		mOK := false
-		if len(sign.Call.Args) == 2 {
-			for _, c := range c01ConeCalls(sign.Call.Args[1]) {
-				if callIs(c, "encoding/json", "", "Marshal") {
-					mOK = true
-				}
-			}
-		}
-		r.Check(mOK, c01R8, "Encrypt signs the marshalled manifest", p.Pos(sign.Pos()), "SignHeader(json.Marshal(manifest))", "the manifest handed to SignHeader is not the output of json.Marshal (compact JSON, one line)")
-		x.headerFirst(enc, sign)
-		// key names
-		eo := x.pkg + ".EncryptOptions"
-		if len(wrap.Call.Args) >= 3 {
-			id, _, ok := c01AnyField(wrap.Call.Args[2])
-			r.Check(ok && id.Type == eo && id.Field == "KeyName", c01R8, "Encrypt wraps with KeyName", p.Pos(wrap.Pos()), "WrapKeyFn(…, opts.KeyName, …)", "the key name handed to WrapKeyFn is not EncryptOptions.KeyName (DecryptionKeyName only names the key for the reader)")
-		}
-		x.keyNameChoice("Encrypt manifest key name", pos, stores["KeyName"], []c01Choice{
-			{src: "const:", underField: "OmitKeyName", underBool: true},
-			{src: "EncryptOptions.DecryptionKeyName"},
-			{src: "EncryptOptions.KeyName", underField: "DecryptionKeyName", underEmpty: true},
-		}, "Manifest.KeyName must be empty with OmitKeyName, else DecryptionKeyName, else KeyName")
-	}
-
-	// --- Decrypt
-	var imp, unwrap *ssa.Call
-	allInstrs(dec, func(in ssa.Instruction) {
-		c, ok := in.(*ssa.Call)
-		if !ok {
-			return
-		}
-		if f := staticCallee(c); f != nil && f.Name() == "importFileKey" {
-			imp = c
-		}
-		if id, _, ok := c01AnyField(c.Call.Value); ok && id.Field == "UnwrapKeyFn" {
-			unwrap = c
-		}
-	})
-	if imp == nil || unwrap == nil {
-		r.Undecide("C01.R8: Decrypt's importFileKey / UnwrapKeyFn calls not found")
-		return
-	}
-	fld := func(v ssa.Value) string {
-		if id, _, ok := c01AnyField(v); ok && id.Type == mfKey {
-			return id.Field
-		}
-		return ""
-	}
-	a := imp.Call.Args
-	good := len(a) == 3 && fld(a[1]) == "NoncePrefix" && fld(a[2]) == "Cipher" && c01DependsOn(a[0], unwrap)
-	r.Check(good, c01R8, "Decrypt imports the manifest's values", p.Pos(imp.Pos()), "importFileKey(unwrapped key, manifest.NoncePrefix, manifest.Cipher)", "importFileKey is not given the unwrapped key, the manifest's nonce prefix and the manifest's cipher (in that order)")
-	u := unwrap.Call.Args
-	good = len(u) >= 3 && fld(u[0]) == "WFK" && fld(u[1]) == "KeyWrappingAlgorithm"
-	r.Check(good, c01R8, "Decrypt unwraps the manifest's key", p.Pos(unwrap.Pos()), "UnwrapKeyFn(manifest.WFK, manifest.KeyWrappingAlgorithm, …)", "UnwrapKeyFn is not given the manifest's wrapped key and key-wrapping algorithm")
-	// key name: override first, manifest otherwise
-	if len(u) >= 3 {
-		srcs := map[string]bool{}
-		var walk func(v ssa.Value, d int)
-		walk = func(v ssa.Value, d int) {
-			if d > 4 {
-				return
-			}
-			if phi, ok := v.(*ssa.Phi); ok {
-				for _, e := range phi.Edges {
-					walk(e, d+1)
-				}
-				return
-			}
-			if id, _, ok := c01AnyField(v); ok {
-				srcs[typeShort(id.Type)+"."+id.Field] = true
-				return
-			}
-			srcs["?"] = true
-		}
-		walk(u[2], 0)
-		_ = srcs
-		x.keyNameChoice("Decrypt key name", p.Pos(unwrap.Pos()), u[2], []c01Choice{
-			{src: "DecryptOptions.KeyName"},
-			{src: "Manifest.KeyName", underField: "KeyName", underType: "DecryptOptions", underEmpty: true},
-		}, "the key name handed to UnwrapKeyFn must be the caller's override when given, else the manifest's")
-	}
-}
 
 func typeShort(t string) string {
 	if i := strings.LastIndex(t, "."); i >= 0 {
 		return t[i+1:]
 	}
 	return t
-}
-
-func keysOf(m map[string]bool) []string {
-	var out []string
-	for k := range m {
-		out = append(out, k)
-	}
-	for i := range out {
-		for j := i + 1; j < len(out); j++ {
-			if out[j] < out[i] {
-				out[i], out[j] = out[j], out[i]
-			}
-		}
-	}
-	return out
-}
-
-// headerFirst: in the goroutine Encrypt starts, the signed header is written
-// to the pipe before processSegments runs on the same pipe.
-func (x *c01Ctx) headerFirst(enc *ssa.Function, sign *ssa.Call) {
-	r, p := x.r, x.p
-	ps := p.Func(c01Rel, "processSegments")
-	cons := "Encrypt writes the header before the segments"
-	for _, pc := range c01CallsTo(x.fns, ps) {
-		fn := pc.Parent()
-		if fn != enc && fn.Parent() != enc {
-			continue
-		}
-		hdr := callResult(sign, 0)
-		found := false
-		allInstrs(fn, func(in ssa.Instruction) {
-			c, ok := in.(*ssa.Call)
-			if !ok || c == pc.(ssa.Instruction) {
-				return
-			}
-			for _, a := range c.Call.Args {
-				if c01DependsOn(a, hdr) && instrDominates(c, pc) {
-					// the call must (transitively, one level) write to the pipe
-					if callIs(c, "io", "PipeWriter", "Write") {
-						found = true
-					}
-					if f := staticCallee(c); f != nil {
-						allInstrs(f, func(j ssa.Instruction) {
-							if c2, ok := j.(*ssa.Call); ok && (callIs(c2, "io", "PipeWriter", "Write") || callIs(c2, "io", "Writer", "Write")) {
-								found = true
-							}
-						})
-					}
-				}
-			}
-		})
-		r.Check(found, c01R8, cons, p.Pos(pc.Pos()), "a write of SignHeader's result dominates processSegments", "no write of the signed header to the output pipe dominates the start of segment processing: the ciphertext does not begin with the three header lines")
-		return
-	}
-	r.Undecide("C01.R8: Encrypt (or its goroutine) no longer calls processSegments")
 }
 
 // c01Choice: one admissible source of a chosen string and the fact under
@@ -1287,162 +332,11 @@ type c01Choice struct {
 	underEmpty bool   // the guard is `field == ""`
 }
 
-// keyNameChoice checks that v is a phi tree over exactly the given sources
-// and that each guarded source is selected only under its guard.
-func (x *c01Ctx) keyNameChoice(cons, pos string, v ssa.Value, choices []c01Choice, what string) {
-	r := x.r
-	if v == nil {
-		r.Violation(c01R8, cons, pos, what+": the value is never set")
-		return
-	}
-	type leaf struct {
-		src   string
-		conds []DomCond
-	}
-	var leaves []leaf
-	var walk func(v ssa.Value, conds []DomCond, d int)
-	walk = func(v ssa.Value, conds []DomCond, d int) {
-		if phi, ok := v.(*ssa.Phi); ok && d < 5 {
-			for i, e := range phi.Edges {
-				pred := phi.Block().Preds[i]
-				cs := append([]DomCond{}, domConds(pred)...)
-				if len(pred.Instrs) > 0 {
-					if ifi, ok := pred.Instrs[len(pred.Instrs)-1].(*ssa.If); ok && pred.Succs[0] != pred.Succs[1] {
-						cs = append(cs, DomCond{ifi, pred.Succs[0] == phi.Block()})
-					}
-				}
-				walk(e, cs, d+1)
-			}
-			return
-		}
-		if s, ok := c01ConstString(v); ok {
-			leaves = append(leaves, leaf{"const:" + s, conds})
-			return
-		}
-		if id, _, ok := c01AnyField(v); ok {
-			leaves = append(leaves, leaf{typeShort(id.Type) + "." + id.Field, conds})
-			return
-		}
-		leaves = append(leaves, leaf{"?", conds})
-	}
-	var top []DomCond
-	if in, ok := v.(ssa.Instruction); ok && in.Block() != nil {
-		top = domConds(in.Block())
-	}
-	walk(v, top, 0)
-	seen := map[string]bool{}
-	bad := ""
-	for _, lf := range leaves {
-		var ch *c01Choice
-		for i := range choices {
-			if choices[i].src == lf.src {
-				ch = &choices[i]
-			}
-		}
-		if ch == nil {
-			bad = "it can also come from " + lf.src
-			continue
-		}
-		seen[lf.src] = true
-		if ch.underField == "" {
-			continue
-		}
-		ok := false
-		for _, dc := range lf.conds {
-			if ch.underBool {
-				cond, br := dc.If.Cond, dc.Branch
-				for {
-					if u, isU := cond.(*ssa.UnOp); isU && u.Op == token.NOT {
-						cond, br = u.X, !br
-						continue
-					}
-					break
-				}
-				if id, _, isF := c01AnyField(cond); isF && id.Field == ch.underField && br {
-					ok = true
-				}
-			}
-			if ch.underEmpty {
-				if cmp, isC := decodeCond(dc.If.Cond, dc.Branch); isC && cmp.Op == token.EQL {
-					a, b := cmp.X, cmp.Y
-					if _, isK := c01ConstString(a); isK {
-						a, b = b, a
-					}
-					id, _, isF := c01AnyField(a)
-					sv, isK := c01ConstString(b)
-					if isF && isK && sv == "" && id.Field == ch.underField && (ch.underType == "" || typeShort(id.Type) == ch.underType) {
-						ok = true
-					}
-				}
-				// len(field) == 0
-				if cmp, isC := decodeCond(dc.If.Cond, dc.Branch); isC && cmp.Op == token.EQL {
-					if lc, isL := cmp.X.(*ssa.Call); isL && builtinName(lc) == "len" {
-						if id, _, isF := c01AnyField(lc.Call.Args[0]); isF && id.Field == ch.underField {
-							if k, isK := c01ConstInt(cmp.Y); isK && k == 0 {
-								ok = true
-							}
-						}
-					}
-				}
-			}
-		}
-		if !ok {
-			bad = lf.src + " is chosen on a path where " + ch.underField + " was not found " + map[bool]string{true: "set", false: "empty"}[ch.underBool]
-		}
-	}
-	for _, ch := range choices {
-		if !seen[ch.src] && bad == "" {
-			bad = ch.src + " is never used"
-		}
-	}
-	r.Check(bad == "", c01R8, cons, pos, what, what+"; but "+bad+": some KeyName/DecryptionKeyName/OmitKeyName/override combination hands UnwrapKeyFn a key name other than the documented one")
-}
-
-// c01CellFromPool: the local cell holds a buffer obtained from (*sync.Pool).Get.
-func c01CellFromPool(cell ssa.Value) bool {
-	a, ok := cell.(*ssa.Alloc)
-	if !ok {
-		// the buffer value itself (no cell): look at its own cone
-		for _, c := range c01ConeCalls(cell) {
-			if callIs(c, "sync", "Pool", "Get") {
-				return true
-			}
-		}
-		return false
-	}
-	for _, sv := range c01Stores(a) {
-		for _, c := range c01ConeCalls(sv) {
-			if callIs(c, "sync", "Pool", "Get") {
-				return true
-			}
-		}
-	}
-	return false
-}
-
 // headerSizeLimit (R4): the limit SignHeader enforces is applied to the
 // complete header it returns and does not exceed what readHeader scans.
-func (x *c01Ctx) headerSizeLimit() {
+func (x *c01Ctx) headerSizeLimit(sign *ssa.Function, scan int64) {
 	r, p := x.r, x.p
-	sign := p.Func(c01Rel, "fileKey.SignHeader")
-	rh := p.Func(c01Rel, "readHeader")
-	cons := "SignHeader size limit vs readHeader scan limit"
-	// reader side: the constant end of the window offered to Read
-	var scan int64 = -1
-	for _, sx := range x.collectReads() {
-		if sx.fn != rh {
-			continue
-		}
-		if sl, ok := sx.call.Call.Args[0].(*ssa.Slice); ok && sl.High != nil {
-			if k, ok := c01ConstInt(sl.High); ok {
-				scan = k
-			}
-		}
-	}
-	if scan < 0 {
-		r.Undecide("C01.R4: cannot determine how many bytes readHeader is willing to scan (Read window without constant end)")
-		return
-	}
+	cons := "header size limit: writer vs reader scan limit"
 	// writer side: success returns
 	n := 0
 	for _, b := range sign.Blocks {
